@@ -1,5 +1,5 @@
 ENGINES = [
- {"name": "tlc", "path": "lib/vlib.py", "serves_properties": ["C01", "C02", "C04", "C05", "C07", "C08", "C15", "C17"],
+ {"name": "tlc", "path": "lib/vlib.py", "serves_properties": ["C01", "C02", "C04", "C05", "C07", "C08", "C09", "C10", "C14", "C15", "C17"],
   "kind_free_text": "TLC model checking of the TLA+ specifications in spec/, and TLC validation (fold mode) of executions recorded from the real code by the harnesses in harness/"},
 ]
 NOTES = ("One orchestrator (bin/vcheck) per property. Specifications live in spec/ (Word, HexISA, ...); harnesses in harness/ are "
@@ -54,4 +54,20 @@ CHECKS = {
           "nibble and containing procedure of HexISA step k; offset-0 lines = main + XLang call sequence (as a bag when sibling operands "
           "both call, since X leaves their order open).",
   "note": "Trace text parsed by regex; programs limited to 20000 instructions."},
+ "C09": {"level": "exploration", "design_ref": "DESIGN.md 5 (C09), 6",
+  "technique": "TLC-defined input space (Unusual.tla) + mutants + random bytes into an ASan/UBSan build; outcome records validated by TLC against ToolRun!LibConforms",
+  "text": "The structured input space (semantically unusual programs) is a TLA+ set; crashes, sanitizer reports and CPU-budget hangs are observed, "
+          "and every outcome must be Accept (binary, no diagnostic) or Reject (diagnostic, nothing written) per ToolRun.tla.",
+  "note": "Undefined behaviour is detected by sanitizers on explored inputs, not decided by the specification; uninitialised reads only via C11. "
+          "Exploration level: no claim beyond the inputs tried."},
+ "C10": {"level": "exploration", "design_ref": "DESIGN.md 5 (C10), 6",
+  "technique": "TLC-enumerated input space (Unusual.tla, exhaustive) + mutants + random bytes into an ASan/UBSan build; TLC termination check of the relaxation model; outcomes validated against ToolRun!LibConforms",
+  "text": "All of Unusual!AsmPrograms, mutants of shipped .S files, random bytes and coupled layouts are assembled in an ASan/UBSan build; "
+          "termination of layout is model-checked on AsmRelax (radix 2) and observed by CPU budget on the code.",
+  "note": "As C09."},
+ "C14": {"level": "model_checking", "design_ref": "DESIGN.md 2.5, 5 (C14)",
+  "technique": "TLC model checking and complete enumeration of ToolRun.tla's invocation space; every shape replayed against the executables and validated with ToolRun!Conforms",
+  "text": "The finite invocation space (tool x source class x -o spelling x position x pre-existing target; exit values for xrun/hexsim) is "
+          "enumerated completely by TLC and each shape (with several source representatives per class) is executed against the built tools.",
+  "note": "Exhaustive over the modelled space only; representatives stand for source classes."},
 }
